@@ -70,6 +70,19 @@ package internal
 //@   ensures [C14] accepted-only-if-key-and-value-assignable: implies(result != nil, askedKey && keyOK && askedVal && valOK)
 //@   ensures [C14] assignable-key-and-value-are-accepted: implies(askedKey && keyOK && askedVal && valOK, result != nil)
 //@   ensures [C10,C14] accepted-map-function-takes-key-and-value-and-returns-at-most-an-error: implies(result != nil, result.Function != nil && len(result.Function.Outputs) == 0 && len(result.Function.Inputs) == 2 && result.KeyType == keyT && result.ElemType == valT && result.Map == ce.Args[1])
+//   options of cff.Map: an option that is not applied (not identifiable, not a
+//   MapEnd, a MapEnd that does not compile, a second MapEnd) leaves a diagnostic
+//   each, and the MapEnd hook is recorded exactly when one compiled.
+//@   ghost e0 int = 0
+//@   ghost nrej int = 0
+//@   ghost nEnd int = 0
+//@   at call getPosInfo 1 ghost e0 = len(c.errors)
+//@   at call identifyOption 1 ghost nrej = nrej + ite(ret2 != nil, 1, 0)
+//@   at call Name 1 ghost nrej = nrej + ite(ret != "MapEnd", 1, 0)
+//@   at call compileMapEnd 1 ghost nrej = nrej + ite(ret == nil || m.MapEndFn != nil, 1, 0)
+//@   at call compileMapEnd 1 ghost nEnd = nEnd + ite(ret != nil, 1, 0)
+//@   loop 1 invariant [C14] every-option-not-applied-leaves-a-diagnostic: nrej >= 0 && nEnd >= 0 && len(c.errors) >= e0 + nrej && (nEnd > 0) == (m.MapEndFn != nil)
+//@   ensures [C14,C10] every-option-not-applied-leaves-a-diagnostic-and-the-end-hook-is-recorded: implies(result != nil, len(c.errors) >= e0 + nrej && (nEnd > 0) == (result.MapEndFn != nil))
 
 // ---------------------------------------------------------------------------
 // C13: the directive compiler never dies with a Go panic on type-correct
@@ -128,6 +141,13 @@ package internal
 //@   ensures [C14] no-diagnostic-removed: $MONO
 //@   requires $C && t != nil
 //@   at call compileSliceEnd 1 pre assume typeChecked-sliceend-arity: len(arg2.Args) == 1
+//@   ghost nrej int = 0
+//@   ghost nEnd int = 0
+//@   at call identifyOption 1 ghost nrej = nrej + ite(ret2 != nil, 1, 0)
+//@   at call compileSliceEnd 1 ghost nrej = nrej + ite(ret == nil || t.SliceEndFn != nil, 1, 0)
+//@   at call compileSliceEnd 1 ghost nEnd = nEnd + ite(ret != nil, 1, 0)
+//@   loop 1 invariant [C14] every-option-not-applied-leaves-a-diagnostic: nrej >= 0 && nEnd >= 0 && len(c.errors) >= old(len(c.errors)) + nrej && implies(nEnd > 0, t.SliceEndFn != nil) && implies(nEnd == 0, t.SliceEndFn == old(t.SliceEndFn))
+//@   ensures [C14,C10] every-option-not-applied-leaves-a-diagnostic-and-the-end-hook-is-recorded: len(c.errors) >= old(len(c.errors)) + nrej && implies(nEnd > 0, t.SliceEndFn != nil) && implies(nEnd == 0, t.SliceEndFn == old(t.SliceEndFn))
 
 //@ func (*compiler).compileInput
 //@   option props=[C13]
